@@ -854,7 +854,12 @@ func (o *ovsdbClient) transact(ctx context.Context, dbName string, skipChWrite b
 	}
 
 	if !skipChWrite && o.trafficSeen != nil {
-		o.trafficSeen <- struct{}{}
+		// never wait for the inactivity handler: it may itself be waiting
+		// for rpcMutex (held for reading here) in order to disconnect
+		select {
+		case o.trafficSeen <- struct{}{}:
+		default:
+		}
 	}
 	return reply, nil
 }
